@@ -29,6 +29,7 @@ from .. import REPO, argvcorpus
 from ..cliharness import run_main, spawn, tool_module
 from ..refmodels import c18_outcome as oc
 
+PYTHON_O_STRIDE = {"quick": 4, "thorough": 2}      # every n-th case is repeated in an interpreter started with -O
 RULE = ("command = (tool, argument vector, stdin kind).  grammar: the sub-commands, positional arity, types and options "
         "read from the live argparse tables of cnfgen / pbgen (33 formula and 18 transformation sub-commands), slots "
         "filled from boundary pools (-1 0 1 2 3 12 1.5 x '' and a 30-digit number where the tool answers at once), valid "
